@@ -11,7 +11,7 @@ from props.C06 import describe, rules
 REQUIRED_THEOREMS = ['Usid.C11.sides', 'Usid.C11.placeholder', 'Usid.C11.rows_cols_are_the_selection']
 RULE = ('generator datasets built with raw h5py (any storage order) AND datasets produced by the library\'s own writer in '
         'both ordering conventions, crossed with slicing dictionaries as in C07 (ints, slices, index lists on any '
-        'subset of dimensions); the new dataset is read back with raw h5py and compared, coordinate by coordinate '
+        'subset of dimensions) and with the wrapper\'s view (file order, sorted, toggled); the new dataset is read back with raw h5py and compared, coordinate by coordinate '
         '(physical values of the remaining dimensions), with the source; non-trivial = a sliced side keeps >= 2 '
         'multi-valued dimensions')
 
@@ -35,7 +35,8 @@ def generate(seed, tier):
         if not sd:
             sd.append({'k': labs[0], 'v': gen_sel(rng, sizes[0], 'list')})
         rng.shuffle(sd)
-        cases.append({'ds': ds, 'sd': sd, 'source': rng.choice(['raw', 'raw', 'writer_f2s', 'writer_s2f'])})
+        cases.append({'ds': ds, 'sd': sd, 'source': rng.choice(['raw', 'raw', 'writer_f2s', 'writer_s2f']),
+                      'view': rng.choice(['file', 'file', 'sorted', 'toggled'])})
     return cases
 
 
@@ -105,7 +106,10 @@ def run_impl(inp, work):
         src_map, _, spl, ssl, src_pi, src_si = _coord_map(f, h5)
         out['src_pos_labels'], out['src_spec_labels'] = spl, ssl
         before = _dump(f['G'])
-        u = USIDataset(h5)
+        view = inp.get('view', 'file')
+        u = USIDataset(h5, sort_dims=(view == 'sorted'))
+        if view == 'toggled':
+            u.toggle_sorting()
         sd = {x['k']: _py_sel(x['v']) for x in inp['sd']}
         r = call(u.slice_to_dataset, sd)
         if r[0] == 'err':
